@@ -181,8 +181,31 @@ def finding_key(prop, rec_id, variant, kind):
     return f"{prop}:{rec_id}:v{variant}:{kind}"
 
 
+def replay_item(out, rp, want, verdict):
+    """re-run one (definition, job set, variant) from a replay file against /repo's working tree and re-certify it"""
+    it = dict(rec=rp["rec"], jobs=[[(t, ps) for t, ps in j] for j in rp["jobs"]], variant=rp.get("variant", 0))
+    learn([it])
+    kind = pre_check(it)
+    cert = None
+    if kind is None:
+        certs, _ = coq_certify([it], want=want)
+        cert = certs.get(0)
+        kind = verdict(it, cert) if cert else "certificate-evaluation-failed"
+    print(P.show(it["rec"]["d"]))
+    print(it.get("text") or it.get("err"))
+    print("certificate:", cert)
+    print("verdict:", kind or "property holds on this input")
+    if kind:
+        key = finding_key(out.pid, it["rec"]["id"], it["variant"], kind.split(":")[0])
+        if out.match_finding(key):
+            out.known_finding(key)
+        else:
+            out.violation(dict(rp, replayed_kind=kind))
+    out.coverage.update({"programs": 1, "disagreements_checked": 1 if kind else 0, "samples": [describe(it)]})
+
+
 def describe(it):
-    return dict(definition_id=it["rec"]["id"], variant=it["variant"], n_jobs=len(it["jobs"]),
+    return dict(definition_id=it["rec"]["id"], variant=it["variant"], n_jobs=len(it["jobs"]), rec=it["rec"], jobs=it["jobs"],
                 definition=P.show(it["rec"]["d"]), output=it.get("text"), error=it.get("err"))
 
 
